@@ -12,9 +12,13 @@ import m "github.com/cockroachdb/redact/internal/markers"
 -- gctx: the classification forced by the outermost enclosing Safe/Unsafe wrapper on the
 -- buffer this printer writes to (0 none, 1 safe, 2 unsafe). Ghost; the code's own record of it is p.override.
 ghostfield buffer.gctx int
+-- snapshots of mode and override at a program point (used by loop invariants)
+ghostvar gm int
+ghostvar gov int
+pred AsAt(p *pp) = p.buf.mode == gm && p.override == gov && p.buf.gctx == gov
 
 -- printer invariant
-pred PI(p *pp) = p.fmt.buf == p.buf && p.override == p.buf.gctx && 0 <= p.buf.gctx && p.buf.gctx <= 2 && (p.buf.gctx == 2 ==> p.buf.mode == UnsafeEscaped) && (p.buf.gctx == 1 ==> p.buf.mode != UnsafeEscaped) && p.buf.mode != SafeRaw
+pred PI(p *pp) = p.fmt.buf == p.buf && 0 <= p.buf.mode && p.buf.mode <= 2 && p.override == p.buf.gctx && 0 <= p.buf.gctx && p.buf.gctx <= 2 && (p.buf.gctx == 2 ==> p.buf.mode == UnsafeEscaped) && (p.buf.gctx == 1 ==> p.buf.mode != UnsafeEscaped) && p.buf.mode != SafeRaw
 -- ... with the base mode of structural code: safe text is written in safe mode unless everything is forced unsafe
 pred B(p *pp) = PI(p) && (p.buf.gctx == 0 ==> p.buf.mode == SafeEscaped)
 -- mode, override and context are as on entry
@@ -306,32 +310,34 @@ func (r restorer) restore()
 -- formatter flags, width and precision as on entry
 pred KF(p *pp) = p.fmt.wid == old(p.fmt.wid) && p.fmt.prec == old(p.fmt.prec) && p.fmt.widPresent == old(p.fmt.widPresent) && p.fmt.precPresent == old(p.fmt.precPresent) && p.fmt.minus == old(p.fmt.minus) && p.fmt.plus == old(p.fmt.plus) && p.fmt.sharp == old(p.fmt.sharp) && p.fmt.space == old(p.fmt.space) && p.fmt.zero == old(p.fmt.zero) && p.fmt.plusV == old(p.fmt.plusV) && p.fmt.sharpV == old(p.fmt.sharpV)
 -- panic/error bookkeeping as on entry
-pred KE(p *pp) = p.panicking == old(p.panicking) && p.erroring == old(p.erroring)
+pred KE(p *pp) = p.panicking == old(p.panicking)
+-- while an error report is being printed (erroring) with %v, no user method runs: nothing panics and the flag stays
+pred EV(p *pp, verb int) = old(p.erroring) && verb == 118 ==> !$panic && p.erroring
 -- %w bookkeeping as on entry
 pred KW(p *pp) = p.wrapErrs == old(p.wrapErrs) && p.wrappedErr == old(p.wrappedErr)
 
 -- the user-supplied methods: the rely relation of DESIGN 2.7. They may call back into the
 -- printer through its exported methods only, each of which is proved to re-establish this.
 assume func (v i.SafeFormatter) SafeFormat(p *pp, verb rune)
-  requires PI(p)
+  requires PI(p) && inv(p.buf)
   modifies p
   may-panic
-  ensures-always PI(p) && Same(p) && Kept(p) && WP(p.fmt)
+  ensures-always PI(p) && Same(p) && Kept(p) && WP(p.fmt) && inv(p.buf)
 
-assume func (v i.SafeMessager) SafeMessage() (s string)
+assume func (v i.anon) SafeMessage() (s string)
   may-panic
 
 assume func redactErrorFn(err error, p *pp, verb rune)
-  requires PI(p)
+  requires PI(p) && inv(p.buf)
   modifies p
   may-panic
-  ensures-always PI(p) && Same(p) && Kept(p) && WP(p.fmt)
+  ensures-always PI(p) && Same(p) && Kept(p) && WP(p.fmt) && inv(p.buf)
 
 assume func (v Formatter) Format(p *pp, verb rune)
-  requires PI(p)
+  requires PI(p) && inv(p.buf)
   modifies p
   may-panic
-  ensures-always PI(p) && Same(p) && Kept(p) && WP(p.fmt)
+  ensures-always PI(p) && Same(p) && Kept(p) && WP(p.fmt) && inv(p.buf)
 
 assume func (v GoStringer) GoString() (s string)
   may-panic
@@ -343,10 +349,10 @@ assume func (v error) Error() (s string)
   may-panic
 
 assume func Sprintfn_printer(p *pp)
-  requires PI(p)
+  requires PI(p) && inv(p.buf)
   modifies p
   may-panic
-  ensures-always PI(p) && Same(p) && Kept(p) && WP(p.fmt)
+  ensures-always PI(p) && Same(p) && Kept(p) && WP(p.fmt) && inv(p.buf)
 
 func newPrinter() (r *pp)
   nosweep
@@ -404,18 +410,15 @@ func (p *pp) unknownType(v reflect.Value)
 func (p *pp) badVerb(verb rune)
   public verb
   requires B(p) && WP(p.fmt)
-  may-panic
-  ensures-always B(p) && Same(p) && WP(p.fmt)
-  ensures-always [C11] $panic ==> p.panicking
+  ensures B(p) && Same(p) && WP(p.fmt)
   ensures KF(p) && KW(p) && p.panicking == old(p.panicking) && !p.erroring
 
 func (p *pp) fmtBool(v bool, verb rune)
   public verb
   requires B(p) && WP(p.fmt)
-  may-panic
-  ensures-always B(p) && Same(p) && WP(p.fmt)
-  ensures-always [C11] $panic ==> p.panicking
+  ensures B(p) && Same(p) && WP(p.fmt)
   ensures KF(p) && KW(p) && p.panicking == old(p.panicking)
+  ensures [C11] verb == 118 ==> p.erroring == old(p.erroring)
 
 func (p *pp) fmt0x64(v uint64, leading0x bool)
   requires PI(p) && WP(p.fmt)
@@ -425,53 +428,125 @@ func (p *pp) fmtInteger(v uint64, isSigned bool, verb rune)
   public verb
   requires PI(p) && WP(p.fmt)
   requires (verb != 118 && verb != 100 && verb != 98 && verb != 111 && verb != 79 && verb != 120 && verb != 88 && verb != 99 && verb != 113 && verb != 85) ==> B(p)
-  may-panic
-  ensures-always PI(p) && Same(p) && WP(p.fmt)
-  ensures-always [C11] $panic ==> p.panicking
+  ensures PI(p) && Same(p) && WP(p.fmt)
   ensures KF(p) && KW(p) && p.panicking == old(p.panicking)
+  ensures [C11] verb == 118 ==> p.erroring == old(p.erroring)
 
 func (p *pp) fmtFloat(v float64, size int, verb rune)
   public verb
   requires PI(p) && WP(p.fmt)
   requires (verb != 118 && verb != 98 && verb != 103 && verb != 71 && verb != 120 && verb != 88 && verb != 102 && verb != 101 && verb != 69 && verb != 70) ==> B(p)
-  may-panic
-  ensures-always PI(p) && Same(p) && WP(p.fmt)
-  ensures-always [C11] $panic ==> p.panicking
+  ensures PI(p) && Same(p) && WP(p.fmt)
   ensures KF(p) && KW(p) && p.panicking == old(p.panicking)
+  ensures [C11] verb == 118 ==> p.erroring == old(p.erroring)
 
 func (p *pp) fmtComplex(v complex128, size int, verb rune)
   public verb
   requires B(p) && WP(p.fmt)
-  may-panic
-  ensures-always B(p) && Same(p) && WP(p.fmt)
-  ensures-always [C11] $panic ==> p.panicking
+  ensures B(p) && Same(p) && WP(p.fmt)
   ensures KF(p) && KW(p) && p.panicking == old(p.panicking)
+  ensures [C11] verb == 118 ==> p.erroring == old(p.erroring)
 
 func (p *pp) fmtString(v string, verb rune)
   public verb
   requires PI(p) && WP(p.fmt)
   requires (verb != 118 && verb != 115 && verb != 120 && verb != 88 && verb != 113) ==> B(p)
-  may-panic
-  ensures-always PI(p) && Same(p) && WP(p.fmt)
-  ensures-always [C11] $panic ==> p.panicking
+  ensures PI(p) && Same(p) && WP(p.fmt)
   ensures KF(p) && KW(p) && p.panicking == old(p.panicking)
+  ensures [C11] verb == 118 ==> p.erroring == old(p.erroring)
 
 func (p *pp) fmtBytes(v []byte, verb rune, typeString string)
   public verb, typeString
   requires B(p) && WP(p.fmt)
   may-panic
-  loop 1 invariant B(p) && Same(p) && KF(p) && KW(p) && KE(p) && WP(p.fmt)
-  loop 2 invariant B(p) && Same(p) && KF(p) && KW(p) && KE(p) && WP(p.fmt)
+  loop 1 invariant !$panic && inv(p.buf) && B(p) && Same(p) && KF(p) && KW(p) && KE(p) && WP(p.fmt) && (old(p.erroring) && verb == 118 ==> p.erroring)
+  loop 2 invariant !$panic && inv(p.buf) && B(p) && Same(p) && KF(p) && KW(p) && KE(p) && WP(p.fmt) && (old(p.erroring) && verb == 118 ==> p.erroring)
   ensures-always B(p) && Same(p) && WP(p.fmt)
   ensures-always [C11] $panic ==> p.panicking
-  ensures KF(p) && KW(p) && p.panicking == old(p.panicking)
+  ensures KF(p) && p.panicking == old(p.panicking)
+  ensures [C15] verb != 119 ==> KW(p)
+  ensures-always [C11] EV(p, verb)
 
 func (p *pp) fmtPointer(value reflect.Value, verb rune)
   public verb
   class 2 before "p.fmt.padString(nilAngleString)"
   requires B(p) && WP(p.fmt)
-  may-panic
+  ensures B(p) && Same(p) && WP(p.fmt)
+  ensures KF(p) && KW(p) && p.panicking == old(p.panicking)
+  ensures [C11] verb == 118 && (value.Kind() == 18 || value.Kind() == 19 || value.Kind() == 21 || value.Kind() == 22 || value.Kind() == 23 || value.Kind() == 26) ==> p.erroring == old(p.erroring)
+@*/
+
+/*@
+-- ---------------------------------------------------------------- print.go: dispatch
+
+assume pure func (v reflect.Value) String() string
+
+assume pure func (v reflect.Value) Bytes() []byte
+
+assume pure func reflect.TypeOf(x interface{}) (t reflect.Type)
+  ensures t == safeWrapperType <==> hasType(x, "redact.safeWrapper")
+  ensures t == unsafeWrapperType <==> hasType(x, "redact.unsafeWrap")
+
+func (p *pp) catchPanic(arg interface{}, verb rune, method string)
+  public verb, method
+  requires B(p) && WP(p.fmt)
+  modifies p, $panic
   ensures-always B(p) && Same(p) && WP(p.fmt)
   ensures-always [C11] $panic ==> p.panicking
-  ensures KF(p) && KW(p) && p.panicking == old(p.panicking)
+  ensures-always !old($panic) ==> !$panic && Kept(p)
+  ensures-always [C11] old($panic) && !$panic ==> KF(p) && KW(p) && KE(p)
+  ensures-always [C11] old($panic) && !old(p.panicking) && $panic ==> p.panicking
+
+func (p *pp) handleMethods(verb rune) (handled bool)
+  public verb
+  requires B(p) && WP(p.fmt)
+  may-panic
+  class 2 before "p.fmt.fmtS(stringer.GoString())"
+  ensures-always B(p) && Same(p) && WP(p.fmt)
+  ensures-always [C11] $panic ==> p.panicking
+  ensures [C15] verb != 119 ==> KW(p)
+  ensures KF(p) && KE(p)
+  ensures-always [C11] EV(p, verb)
+
+func (p *pp) handleSpecialValues(value reflect.Value, t reflect.Type, verb rune, depth int) (handled bool)
+  public verb
+  requires B(p) && WP(p.fmt)
+  may-panic
+  assume [C01] frag(value.String(), len(value.String())) before "p.buf.WriteString(value.String())"
+  assume [C01] frag(value.Bytes(), len(value.Bytes())) && ref(value.Bytes()) != ref(p.buf.buf) before "p.buf.Write(value.Bytes())"
+  ensures-always B(p) && Same(p) && WP(p.fmt)
+  ensures-always [C11] $panic ==> p.panicking
+  ensures [C15] verb != 119 ==> KW(p)
+  ensures KF(p) && KE(p)
+  ensures-always [C11] EV(p, verb)
+
+func (p *pp) printArg(arg interface{}, verb rune)
+  public verb
+  assume [C08] ref(f) != ref(p.buf.buf) before "defer p.startPreRedactable().restore()" #2
+  assume [C08] ref(f) != ref(p.buf.buf) before "p.buf.Write([]byte(f))"
+  requires B(p) && WP(p.fmt)
+  may-panic
+  class 1 before "p.fmt.padString(nilAngleString)"
+  ensures-always B(p) && Same(p) && WP(p.fmt)
+  ensures-always [C11] $panic ==> p.panicking
+  ensures [C15] verb != 119 ==> KW(p)
+  ensures KF(p) && KE(p)
+  ensures-always [C11] EV(p, verb)
+
+func (p *pp) printValue(value reflect.Value, verb rune, depth int)
+  public verb
+  requires B(p) && WP(p.fmt)
+  may-panic
+  ghost gm = p.buf.mode before "switch f := value; value.Kind()"
+  ghost gov = p.override before "switch f := value; value.Kind()"
+  loop 1 invariant !$panic && inv(p.buf) && B(p) && AsAt(p) && KF(p) && KE(p) && WP(p.fmt) && (verb != 119 ==> KW(p)) && (old(p.erroring) && verb == 118 ==> p.erroring) && len(sorted.Key) == len(sorted.Value)
+  loop 2 invariant !$panic && inv(p.buf) && B(p) && AsAt(p) && KF(p) && KE(p) && WP(p.fmt) && (verb != 119 ==> KW(p)) && (old(p.erroring) && verb == 118 ==> p.erroring) && 0 <= i
+  loop 3 invariant !$panic && inv(p.buf) && B(p) && AsAt(p) && KF(p) && KE(p) && WP(p.fmt) && (verb != 119 ==> KW(p)) && (old(p.erroring) && verb == 118 ==> p.erroring)
+  loop 4 invariant !$panic && inv(p.buf) && B(p) && AsAt(p) && KF(p) && KE(p) && WP(p.fmt) && (verb != 119 ==> KW(p)) && (old(p.erroring) && verb == 118 ==> p.erroring) && 0 <= i
+  loop 5 invariant !$panic && inv(p.buf) && B(p) && AsAt(p) && KF(p) && KE(p) && WP(p.fmt) && (verb != 119 ==> KW(p)) && (old(p.erroring) && verb == 118 ==> p.erroring) && 0 <= i
+  ensures-always B(p) && Same(p) && WP(p.fmt)
+  ensures-always [C11] $panic ==> p.panicking
+  ensures [C15] verb != 119 ==> KW(p)
+  ensures KF(p) && KE(p)
+  ensures-always [C11] EV(p, verb)
 @*/
